@@ -56,7 +56,7 @@ META = {
                    'renaming experiment tests.'),
     'rule': ('literals: exhaustive over a 14-symbol alphabet (both quotes, backslash, newline, CR, tab, NUL, DEL, brace, '
              'letters, non-ASCII) up to length 3 (quick) / 4 (thorough) + random; literal reader: exhaustive bodies up to '
-             'length 4 / 5 + mutations; models: random dataclass models x engines {v0, v1, env} x {plain, JSONWizard}, each '
+             'length 4 (thorough: + 40000 of length 5) + mutations; models: random dataclass models x engines {v0, v1, env} x {plain, JSONWizard}, each '
              'with 3 renamings (fields->internal names/builtins, types->builtins or equal names, strings->hostile text); '
              'distinct = distinct (model, renaming) / distinct string; non-trivial = the renaming changes at least one '
              'identifier that occurs in generated code or one spliced string (models), the string needs an escape (literals).'),
@@ -100,10 +100,9 @@ def literal_cases(ctx):
     reprs = list(dict.fromkeys(reprs))
     # non-printable non-ASCII: direct predicate only
     extra = ['\x80', '\xad', ' ', 'a​b', '퟿', '\U0001f600', '؀']
-    LL = 4 if ctx.tier == 'quick' else 5
     lits = []
     for q in "'\"":
-        for n in range(0, LL + 1):
+        for n in range(0, 5):
             for t in itertools.product(ALPHA_LIT, repeat=n):
                 body = ''.join(t)
                 lits.append(q + body + q)
@@ -112,6 +111,10 @@ def literal_cases(ctx):
     if ctx.tier == 'quick':
         r.shuffle(lits)
         lits = lits[:14000]
+    else:   # all bodies up to length 4, a sample of length 5
+        for _ in range(40000):
+            q = r.choice("'\"")
+            lits.append(q + ''.join(r.choice(ALPHA_LIT) for _ in range(5)) + q)
     for _ in range(300 if ctx.tier == 'quick' else 3000):
         s = ''.join(r.choice(pool) for _ in range(r.choice([1, 2, 4, 8])))
         t = repr(s)
